@@ -181,15 +181,22 @@ _EQ_TRANS = [[0.0, 0.0, 0.0], [-3.0, 5.0, 7.0], [250.0, -125.0, 60.0],
              [-4e4, 3e4, 2e4]]
 
 
+_FURTHER = {}
+
+
 def further_motion(i):
-    n_c = len(build.CUBE_ROTATIONS)
-    k = i % (n_c + len(_EQ_GENERIC))
-    if k < n_c:
-        spec = ["cube", k]
-    else:
-        ax, ang = _EQ_GENERIC[k - n_c]
-        spec = ["axis", ax, ang]
-    return spec, _EQ_TRANS[(i // 3) % len(_EQ_TRANS)]
+    """Deterministic further rigid motion number i: (spec, R2, t2)."""
+    if i not in _FURTHER:
+        n_c = len(build.CUBE_ROTATIONS)
+        k = i % (n_c + len(_EQ_GENERIC))
+        if k < n_c:
+            spec = ["cube", k]
+        else:
+            ax, ang = _EQ_GENERIC[k - n_c]
+            spec = ["axis", ax, ang]
+        t2 = _EQ_TRANS[(i // 3) % len(_EQ_TRANS)]
+        _FURTHER[i] = (spec, rot_matrix(spec), np.array(t2))
+    return _FURTHER[i]
 
 
 def tlabel(t):
@@ -405,6 +412,14 @@ def run_fit(case):
         out["nontrivial"].append(f"fit:{case['res']}:{atom}:{','.join(refs)}")
         Pl = P.tolist()
         pl = p.tolist()
+        # three non-collinear reference points spanning "the" plane
+        nrm = np.cross(P[1] - P[0], P[2] - P[0])
+        k3 = 2
+        while np.linalg.norm(nrm) < 1e-6 and k3 + 1 < n:
+            k3 += 1
+            nrm = np.cross(P[1] - P[0], P[k3] - P[0])
+        nrm = nrm / np.linalg.norm(nrm)
+        planar = n == 3 or s2_planar(P)
         # structure = R * template + t ; oracle = R * p + t
         RP = np.einsum("rij,nj->rni", Rm, P)
         S = RP[:, None, :, :] + tarr[None, :, None, :]
@@ -446,8 +461,9 @@ def run_fit(case):
                 for r in bad[:50]:
                     got = res_o[r, t]
                     kind = "error>1e-6"
-                    if n == 3 or s2_planar(P):
-                        mir = _reflect(E[r, t], S[r, t])
+                    if planar:
+                        Srt = S[r, t]
+                        mir = _reflect(E[r, t], [Srt[0], Srt[1], Srt[k3]])
                         off_plane = np.linalg.norm(mir - E[r, t]) / 2.0
                         if (off_plane > TOL_FIT
                                 and np.linalg.norm(got - mir) <= TOL_FIT):
@@ -463,12 +479,6 @@ def run_fit(case):
                             dict(base, rots=[specs[r]], trans=[trans[t]],
                                  only="image"))
         # ---- 2. handedness probe: a fourth point one A above the plane ----
-        nrm = np.cross(P[1] - P[0], P[2] - P[0])
-        k3 = 2
-        while np.linalg.norm(nrm) < 1e-6 and k3 + 1 < n:
-            k3 += 1
-            nrm = np.cross(P[1] - P[0], P[k3] - P[0])
-        nrm = nrm / np.linalg.norm(nrm)
         q = P.mean(0) + nrm
         ql = q.tolist()
         if abs(float((p - P[0]) @ nrm)) < 0.05:
@@ -510,9 +520,8 @@ def run_fit(case):
         # ---- 3. a further rigid motion moves the result with it -----------
         if only in (None, "moved"):
             for r in range(nR):
-                spec2, t2 = further_motion(r + case.get("eq_offset", 0))
-                R2 = rot_matrix(spec2)
-                t2a = np.array(t2)
+                spec2, R2, t2a = further_motion(r + case.get("eq_offset", 0))
+                t2 = t2a.tolist()
                 S1 = S[r, i_eq]
                 S2 = S1 @ R2.T + t2a
                 try:
@@ -1055,8 +1064,9 @@ def _qchi_check(qchichange, axis, pts, angle, util, n_dihedral):
         done += 1
         quad0 = [A.tolist(), [0.0, 0.0, 0.0], tip.tolist(), P[i].tolist()]
         quad1 = quad0[:3] + [got[i].tolist()]
-        d_impl = wrap(util.dihedral(*quad1) - util.dihedral(*quad0) - angle)
-        d_ref = wrap(build.dihedral(*quad1) - build.dihedral(*quad0) - angle)
+        want = build.dihedral(*quad0) + angle
+        d_impl = wrap(util.dihedral(*quad1) - want)
+        d_ref = wrap(build.dihedral(*quad1) - want)
         if abs(d_ref) > TOL_ANGLE:
             faults.append(("torsion-change", {"requested": angle,
                                               "off_by_deg": float(d_ref)}))
